@@ -206,7 +206,7 @@ class ProgProp:
                 "hascompare": sorted(cats["hascompare"])})
         return ctx.cache[key]
 
-    def old_file(self, ctx, v, items):
+    def old_file(self, ctx, v, items, ntab=None):
         """(table, co_code, reference decode, labels, header, payload, string kind) of an assembled old-version file"""
         import struct
         from vf.magicreg import final_magics
@@ -244,8 +244,9 @@ class ProgProp:
         vt = ga.vt(base_v)
         py2 = vt < (3, 0)
         sk = "y" if py2 else "t"
-        consts = ["T", [["i", str(k)] for k in range(ga.NTAB)]]
-        names = ["n%d" % k for k in range(ga.NTAB)]
+        NT = ntab or ga.NTAB
+        consts = ["T", [["i", str(k)] for k in range(NT)]]
+        names = ["n%d" % k for k in range(NT)]
         varnames = ["v%d" % k for k in range(ga.NTAB)]
         tree = rm.template_code_tree(base_v, consts, code=co_code, names=names, varnames=varnames)
         tree[1]["co_cellvars"] = rm.names_tuple(["c%d" % k for k in range(8)], py2)
@@ -265,7 +266,7 @@ class ProgProp:
         if v not in OLD_ASM:
             res.reject = "malformed-case"
             return res
-        built = self.old_file(ctx, v, case.get("items"))
+        built = self.old_file(ctx, v, case.get("items"), ntab=case.get("ntab"))
         if built is None:
             res.reject = "malformed-asm: unknown opcode"
             return res
@@ -306,9 +307,9 @@ class ProgProp:
                     if arg is not None and op != tab.ext:
                         # the padded tables make every index resolvable: consts[i] = i, names n<i>, locals v<i>, cells c0-7 + f0-7
                         want_v = None
-                        if op in tab.const and arg < ga.NTAB:
+                        if op in tab.const and arg < (case.get("ntab") or ga.NTAB):
                             want_v = ("const", ["i", str(arg)])
-                        elif op in tab.name and arg < ga.NTAB:
+                        elif op in tab.name and arg < (case.get("ntab") or ga.NTAB):
                             want_v = ("name", [sk, rw.hx(("n%d" % arg).encode())])
                         elif op in tab.local and arg < ga.NTAB:
                             want_v = ("local", [sk, rw.hx(("v%d" % arg).encode())])
@@ -345,7 +346,7 @@ class ProgProp:
                 if not isinstance(it, dict) or it.get("op") not in tab.opmap:
                     return {"reject": "malformed-asm: unknown opcode"}
             co_code, starts, info = ga.assemble(tab, case["items"])
-            r = ctx.pool.ref(v).call("mkcode", fields=ga.code_fields(tab, co_code, rw.hx), dis=True)
+            r = ctx.pool.ref(v).call("mkcode", fields=ga.code_fields(tab, co_code, rw.hx, ntab=case.get("ntab")), dis=True)
             if "reject" not in r and "referr" in r["dis"][0]:
                 return {"reject": "reference-dis-cannot-render: " + r["dis"][0]["referr"].split(":")[0]}
             return r
@@ -376,6 +377,11 @@ class ProgProp:
                 yield {"k": "asmold" if old else "asm", "v": v, "items": items}
                 for items in ga.jump_patterns(tab) + ga.opcode_sweeps(tab):
                     yield {"k": "asmold" if old else "asm", "v": v, "items": items}
+                if vt < (3, 6) and v in ("2.7", "2.5", "2.2", "3.2", "3.5") and "LOAD_CONST" in tab.opmap and "LOAD_NAME" in tab.opmap:
+                    # table indices beyond 2^16: the EXTENDED_ARG of byte code supplies bits 16-31 of an index, too
+                    items = [{"op": "LOAD_CONST", "arg": 65541, "pre": 1, "to": None}, {"op": "LOAD_NAME", "arg": 65538, "pre": 1, "to": None},
+                             {"op": "LOAD_CONST", "arg": 5, "pre": 1, "to": None}]
+                    yield {"k": "asmold" if old else "asm", "v": v, "items": items, "ntab": 65600}
 
     def judge_corpus_internal(self, case, ctx):
         """corpus files (incl. versions with no interpreter): oracles internal to the decoded stream"""
